@@ -149,8 +149,9 @@ def check_obligations(prop_file):
     rc, out, err, wall = run(["coqc", "-Q", "theories", "ART", "-Q", "props", "ARTprops", "-Q", "corr", "ARTcorr",
                               os.path.join("props", prop_file)], 900, cwd=COQ)
     axioms = set()
-    for m in re.finditer(r"^([A-Za-z0-9_.']+)\s*:", out, flags=re.M):
-        axioms.add(m.group(1))
+    for m in re.finditer(r"^([A-Za-z_][A-Za-z0-9_.']*)(?: :|$)", out, flags=re.M):
+        if m.group(1) not in ("Axioms",):
+            axioms.add(m.group(1))
     closed = len(re.findall(r"Closed under the global context", out))
     bad = sorted(a for a in axioms if a not in ALLOWED_AXIOMS)
     ok = rc == 0
